@@ -309,6 +309,7 @@ def rule_length_checks(ctx, rid):
             ctx.passed(rid, fi, c)
         else:
             ctx.violation(rid, fi, c, 'mismatched array lengths are no longer rejected by %s' % fi.name)
+    rule_ensure_sites(ctx, rid)
     # the check itself must raise exactly on a mismatch: the path conditions of ensure_equal_dims are evaluated
     # concretely on representative shape lists (no repository code is run; see conceval.py)
     from ..conceval import ConcEval, Arr, Undecided
@@ -349,6 +350,46 @@ def rule_length_checks(ctx, rid):
         else:
             ctx.violation(rid, fi, c, 'arrays of equal shapes %s (dim=%s) are rejected' % (shapes, dim),
                           path=trace_tail(e.state, 6))
+
+
+ENSURE = ('emd.support.ensure_equal_dims', 'emd.support.ensure_2d', 'emd.support.ensure_vector',
+          'emd.support.ensure_1d_with_singleton')
+
+
+def rule_ensure_sites(ctx, rid, only=None):
+    """Every call of an ensure_* routine is well formed: `to_check` is a literal list / tuple of arrays (no string
+    among them), `names` a literal list / tuple of as many strings, `func_name` a string.  (Swapped arguments make
+    the routine validate the strings and name the arrays: an exception on valid input, or no check at all.)"""
+    P = ctx.P
+    n = 0
+    for q, fi in sorted(P.funcs.items()):
+        if fi.module.name not in NUMERIC or (only is not None and q not in only):
+            continue
+        for c in P.calls_in(fi):
+            ca = P.resolve_callee(fi.module, fi, c.func)
+            if ca.kind != 'repo' or ca.dotted not in ENSURE:
+                continue
+            n += 1
+            b = P.bind(c.args, c.keywords, ca)
+            tc, nm, fn = b.args.get('to_check'), b.args.get('names'), b.args.get('func_name')
+            cst = '%s call on line %d is well formed' % (ca.func.name, c.lineno)
+            why = None
+            if not isinstance(tc, (ast.List, ast.Tuple)) or not tc.elts:
+                why = 'to_check is %s, not a list of arrays' % (unparse(tc)[:40] if tc is not None else 'missing')
+            elif any(isinstance(x, ast.Constant) and isinstance(x.value, str) for x in tc.elts):
+                why = 'to_check holds string constants (%s): the arrays and their names are swapped' % unparse(tc)[:40]
+            elif not isinstance(nm, (ast.List, ast.Tuple)) or not all(
+                    isinstance(x, ast.Constant) and isinstance(x.value, str) for x in nm.elts):
+                why = 'names is %s, not a list of strings' % (unparse(nm)[:40] if nm is not None else 'missing')
+            elif len(nm.elts) != len(tc.elts):
+                why = '%d arrays but %d names' % (len(tc.elts), len(nm.elts))
+            elif not (isinstance(fn, ast.Constant) and isinstance(fn.value, str)):
+                why = 'func_name is %s' % (unparse(fn)[:30] if fn is not None else 'missing')
+            if why:
+                ctx.violation(rid, fi, cst, why, node=c)
+            else:
+                ctx.passed(rid, fi, cst, node=c)
+    ctx.cover['ensure_call_sites'] = n
 
 
 def rule_no_module_state(ctx, rid):
